@@ -84,11 +84,16 @@ structure TimedSig where
   key : Key
   notBefore : Int
   notAfter : Int
+  /-- the RRSIG's Signer's Name field: 0 = "." (the zone of the RRset), n > 0 = some other name. -/
+  signer : Nat := 0
 deriving DecidableEq, Repr
 
-/-- `sig.ValidityPeriod(time.Time{})` in `verifyOneSigWithWork`: inside the window,
-no margin on either side. -/
-def TimedSig.valid (t : TimedSig) : Bool := t.notBefore ≤ 0 && 0 ≤ t.notAfter
+/-- `verifyOneSigWithWork`: `sig.ValidityPeriod(time.Time{})` — inside the window,
+no margin on either side — and the signer-name checks (`usableSignatureCandidate`:
+the key's owner name must equal the RRSIG's signer name; `signatureMatchesRRset`:
+the RRset must lie in the signer's zone): for the root's DNSKEY RRset and anchors
+owned by "." only a signer name "." passes. -/
+def TimedSig.valid (t : TimedSig) : Bool := t.notBefore ≤ 0 && 0 ≤ t.notAfter && t.signer == 0
 
 /-- the keys whose RRSIG counts: the unconditionally valid ones plus the
 time-bounded ones that are inside their window. -/
